@@ -210,6 +210,18 @@ int main(int argc, char** argv) {
   f6.group = "LV";
   f6.chunk = 64;
   f6.rule = "target object of N members (N in {0,1,2,3,8,15..17,24,31..34,40,64,65}) x source with M new keys (every M in 0..40 and 48,63..65,100) plus updates of the first, middle and last existing member, in 4 layouts (new keys first / existing first / interleaved / new first with updates in reverse order), update by nested merge or by replacement, at the root and one level down";
+  // LS: scalar SPELLINGS as direct member values of every object level the merge walks (root, nested on both
+  // sides), as array elements and inside untouched values; followed by nothing, a space, a tab or a newline
+  static const char* kLS[] = {"0", "-0", "1", "-1", "12", "1.5", "-1.5", "0.25", "1e5", "1E5", "1e+5", "1E+5", "1e-5", "1E-5", "4E2", "6E-1", "0.25E+2", "-4E+2", "2.5E-3", "12E3", "-0.0", "-0e0", "0E0", "1.0e0",
+                              "1.0E+0", "123456789012345678", "18446744073709551615", "18446744073709551616", "-9223372036854775808", "1.7976931348623157e308", "1.7976931348623157E308", "4.9E-324",
+                              "123456789012345678901234567890", "0.000000000000000000000000000001", "true", "false", "null", "\"\"", "\"e\"", "\"E\"", "\"1E5\"", "\"\\\"\"", "[]", "{}", "[1E5]", "{\"E\":1E5}"};
+  static const unsigned LS_N = sizeof(kLS) / sizeof(kLS[0]);
+  vr::Family f7;
+  f7.name = "LS_scalar_spellings";
+  f7.count = (uint64_t)LS_N * LS_N * 6 * 4;
+  f7.group = "LS";
+  f7.chunk = 256;
+  f7.rule = "all ordered pairs (A, B) of " + std::to_string(LS_N) + " value spellings (integers, fractions, exponents written e / E with and without sign, extremes, literals, strings holding E, small containers) x 6 layouts (A and B as root members; in an object nested on both sides; A untouched next to the updated member; inside arrays; B new next to a kept A; three levels) x 4 bytes after the value (none, space, tab, newline)";
   f5.name = "LW_wide_mixed_keys";
   f5.count = (uint64_t)kpool.size() * 8 * 14;
   f5.group = "LW";
@@ -279,6 +291,43 @@ int main(int argc, char** argv) {
         ctx.violation("lazy_dup_keys", "lazy_dup_keys_counts", desc, "result has duplicate keys: %s", out.substr(0, 600).c_str());
       else if (!ref::equal(r.v, exp))
         ctx.violation("lazy_result", "lazy_result_counts", desc, "UpdateLazy returned %s, expected a value equal to %s", out.substr(0, 500).c_str(), ref::show(exp).substr(0, 500).c_str());
+      return;
+    }
+    if (f.name[1] == 'S') {
+      static const char* kAfter[4] = {"", " ", "\t", "\n"};
+      std::string af = kAfter[idx % 4];
+      idx /= 4;
+      unsigned lay = (unsigned)(idx % 6);
+      idx /= 6;
+      std::string A = std::string(kLS[idx % LS_N]) + af, B = std::string(kLS[idx / LS_N]) + af;
+      std::string t, s2;
+      switch (lay) {
+        case 0: t = "{\"a\":" + A + ",\"b\":" + A + "}"; s2 = "{\"b\":" + B + ",\"c\":" + B + "}"; break;
+        case 1: t = "{\"o\":{\"a\":" + A + ",\"b\":" + A + "},\"z\":" + A + "}"; s2 = "{\"o\":{\"b\":" + B + ",\"c\":" + B + "}}"; break;
+        case 2: t = "{\"a\":" + A + ",\"b\":{\"k\":1},\"c\":" + A + "}"; s2 = "{\"b\":{\"k\":" + B + "}}"; break;
+        case 3: t = "{\"a\":[" + A + "," + A + "],\"b\":[" + A + "]}"; s2 = "{\"b\":[" + B + "," + B + "],\"c\":[" + B + "]}"; break;
+        case 4: t = "{\"a\":" + A + "}"; s2 = "{\"n\":" + B + ",\"m\":{\"x\":" + B + "}}"; break;
+        default: t = "{\"o\":{\"p\":{\"a\":" + A + ",\"q\":{\"a\":" + A + "}}}}"; s2 = "{\"o\":{\"p\":{\"q\":{\"b\":" + B + "},\"r\":" + B + "}}}"; break;
+      }
+      ref::Result rt = ref::parse(t), rs = ref::parse(s2);
+      ctx.eval();
+      ctx.nontriv();
+      std::string desc = "target=" + t + "  source=" + s2;
+      if (ctx.want_sample) ctx.sample(desc.substr(0, 200));
+      if (!rt.ok || !rs.ok || ref::has_dup_keys(rt.v) || ref::has_dup_keys(rs.v)) {
+        ctx.violation("harness", "harness_generator", desc, "harness error: generated text invalid");
+        return;
+      }
+      ExactBuf tb(t), sb(s2);
+      std::string out = sonic_json::UpdateLazy(sonic_json::StringView(tb.p, tb.n), sonic_json::StringView(sb.p, sb.n));
+      ref::Result r = ref::parse(out);
+      ref::Value exp = mergeL(rt.v, rs.v);
+      if (!r.ok)
+        ctx.violation("lazy_invalid_output", "lazy_invalid_output_spellings", desc, "UpdateLazy returned %s which is not valid JSON", out.substr(0, 300).c_str());
+      else if (ref::has_dup_keys(r.v))
+        ctx.violation("lazy_dup_keys", "lazy_dup_keys_spellings", desc, "result has duplicate keys: %s", out.substr(0, 600).c_str());
+      else if (!ref::equal(r.v, exp))
+        ctx.violation("lazy_result", "lazy_result_spellings", desc, "UpdateLazy returned %s, expected a value equal to %s", out.substr(0, 400).c_str(), ref::show(exp).substr(0, 400).c_str());
       return;
     }
     if (f.name[1] == 'W') {
@@ -405,7 +454,7 @@ int main(int argc, char** argv) {
     if (ref::has_dup_keys(r.v)) ctx.violation("lazy_dup_keys", "lazy_dup_keys", desc, "result %s has duplicate keys", out.c_str());
   };
 
-  std::vector<vr::Family> fams = {f1, f2, f3, f4, f4b, f5, f6};
+  std::vector<vr::Family> fams = {f1, f2, f3, f4, f4b, f5, f6, f7};
   if (args.replay) return R.replay_one(fams, check);
   const std::string only = args.get("only");
   for (auto& f : fams)
